@@ -9,6 +9,7 @@ import (
 
 	"github.com/ThreeDotsLabs/watermill"
 	"github.com/ThreeDotsLabs/watermill/message"
+	"github.com/ThreeDotsLabs/watermill/verifhook"
 )
 
 // Config holds the GoChannel Pub/Sub's configuration options.
@@ -89,13 +90,16 @@ func (g *GoChannel) Publish(topic string, messages ...*message.Message) error {
 	for i, msg := range messages {
 		messagesToPublish[i] = msg.Copy()
 	}
+	verifhook.At("gochannel.publish.after_closed_check", hookID(messages))
 
 	g.subscribersLock.RLock()
 	defer g.subscribersLock.RUnlock()
+	verifhook.At("gochannel.publish.rlocked", hookID(messages))
 
 	subLock, _ := g.subscribersByTopicLock.LoadOrStore(topic, &sync.Mutex{})
 	subLock.(*sync.Mutex).Lock()
 	defer subLock.(*sync.Mutex).Unlock()
+	verifhook.At("gochannel.publish.locked", hookID(messages))
 
 	if g.config.Persistent {
 		g.persistedMessagesLock.Lock()
@@ -104,6 +108,7 @@ func (g *GoChannel) Publish(topic string, messages ...*message.Message) error {
 		}
 		g.persistedMessages[topic] = append(g.persistedMessages[topic], messagesToPublish...)
 		g.persistedMessagesLock.Unlock()
+		verifhook.At("gochannel.publish.persisted", hookID(messages))
 	}
 
 	for i := range messagesToPublish {
@@ -114,10 +119,13 @@ func (g *GoChannel) Publish(topic string, messages ...*message.Message) error {
 			return err
 		}
 
+		verifhook.At("gochannel.publish.sent", msg.UUID)
 		if g.config.BlockPublishUntilSubscriberAck {
+			verifhook.At("gochannel.publish.wait_ack", msg.UUID)
 			g.waitForAckFromSubscribers(msg, ackedBySubscribers)
 		}
 	}
+	verifhook.At("gochannel.publish.unlock", hookID(messages))
 
 	return nil
 }
@@ -180,11 +188,13 @@ func (g *GoChannel) Subscribe(ctx context.Context, topic string) (<-chan *messag
 
 	g.subscribersWg.Add(1)
 	g.closedLock.Unlock()
+	verifhook.At("gochannel.subscribe.closed_checked", verifhook.Name(ctx))
 
 	g.subscribersLock.Lock()
 
 	subLock, _ := g.subscribersByTopicLock.LoadOrStore(topic, &sync.Mutex{})
 	subLock.(*sync.Mutex).Lock()
+	verifhook.At("gochannel.subscribe.locked", verifhook.Name(ctx))
 
 	s := &subscriber{
 		ctx:           ctx,
@@ -201,8 +211,10 @@ func (g *GoChannel) Subscribe(ctx context.Context, topic string) (<-chan *messag
 		case <-g.closing:
 			// unblock
 		}
+		verifhook.At("gochannel.teardown.woken", verifhook.Name(ctx))
 
 		s.Close()
+		verifhook.At("gochannel.unsubscribe.before_lock", verifhook.Name(ctx))
 
 		g.subscribersLock.Lock()
 		defer g.subscribersLock.Unlock()
@@ -210,6 +222,7 @@ func (g *GoChannel) Subscribe(ctx context.Context, topic string) (<-chan *messag
 		subLock, _ := g.subscribersByTopicLock.Load(topic)
 		subLock.(*sync.Mutex).Lock()
 		defer subLock.(*sync.Mutex).Unlock()
+		verifhook.At("gochannel.unsubscribe.before_remove", verifhook.Name(ctx))
 
 		g.removeSubscriber(topic, s)
 		g.subscribersWg.Done()
@@ -220,6 +233,7 @@ func (g *GoChannel) Subscribe(ctx context.Context, topic string) (<-chan *messag
 		defer subLock.(*sync.Mutex).Unlock()
 
 		g.addSubscriber(topic, s)
+		verifhook.At("gochannel.subscribe.registered", verifhook.Name(ctx))
 
 		return s.outputChannel, nil
 	}
@@ -228,6 +242,7 @@ func (g *GoChannel) Subscribe(ctx context.Context, topic string) (<-chan *messag
 		defer g.subscribersLock.Unlock()
 		defer subLock.(*sync.Mutex).Unlock()
 
+		verifhook.At("gochannel.subscribe.replay", verifhook.Name(ctx))
 		g.persistedMessagesLock.RLock()
 		messages, ok := g.persistedMessages[topic]
 		g.persistedMessagesLock.RUnlock()
@@ -242,6 +257,7 @@ func (g *GoChannel) Subscribe(ctx context.Context, topic string) (<-chan *messag
 		}
 
 		g.addSubscriber(topic, s)
+		verifhook.At("gochannel.subscribe.registered", verifhook.Name(ctx))
 	}(s)
 
 	return s.outputChannel, nil
@@ -299,9 +315,11 @@ func (g *GoChannel) Close() error {
 
 	g.closed = true
 	close(g.closing)
+	verifhook.At("gochannel.close.signalled", verifhook.Ptr(g))
 
 	g.logger.Debug("Closing Pub/Sub, waiting for subscribers", nil)
 	g.subscribersWg.Wait()
+	verifhook.At("gochannel.close.waited", verifhook.Ptr(g))
 
 	g.logger.Info("Pub/Sub closed", nil)
 	g.persistedMessages = nil
@@ -327,6 +345,7 @@ func (s *subscriber) Close() {
 		return
 	}
 	close(s.closing)
+	verifhook.At("gochannel.sub.close.before_lock", verifhook.Name(s.ctx))
 
 	s.logger.Debug("Closing subscriber, waiting for sending lock", nil)
 
@@ -338,11 +357,13 @@ func (s *subscriber) Close() {
 	s.closed = true
 
 	close(s.outputChannel)
+	verifhook.At("gochannel.sub.close.closed", verifhook.Name(s.ctx))
 }
 
 func (s *subscriber) sendMessageToSubscriber(msg *message.Message, logFields watermill.LogFields) {
 	s.sending.Lock()
 	defer s.sending.Unlock()
+	verifhook.At("gochannel.send.locked", msg.UUID, verifhook.Name(s.ctx))
 
 	ctx, cancelCtx := context.WithCancel(s.ctx)
 	defer cancelCtx()
@@ -360,6 +381,7 @@ SendToSubscriber:
 			s.logger.Info("Pub/Sub closed, discarding msg", logFields)
 			return
 		}
+		verifhook.At("gochannel.send.before_chan", msg.UUID, verifhook.Name(s.ctx))
 
 		select {
 		case s.outputChannel <- msgToSend:
@@ -368,6 +390,7 @@ SendToSubscriber:
 			s.logger.Trace("Closing, message discarded", logFields)
 			return
 		}
+		verifhook.At("gochannel.send.wait_settle", msg.UUID, verifhook.Name(s.ctx))
 
 		select {
 		case <-msgToSend.Acked():
@@ -381,4 +404,12 @@ SendToSubscriber:
 			return
 		}
 	}
+}
+
+// hookID identifies a Publish call for the verification hooks: the UUID of its first message.
+func hookID(messages []*message.Message) string {
+	if len(messages) == 0 {
+		return ""
+	}
+	return messages[0].UUID
 }
